@@ -300,6 +300,20 @@ func repetitionSeeds() []seed {
 			}
 		}
 	}
+	{ // XMP whose elements are nested hundreds of thousands deep (the unit is one start tag)
+		var b bytes.Buffer
+		b.WriteString(`<x:xmpmeta xmlns:x="adobe:ns:meta/"><rdf:RDF xmlns:rdf="http://www.w3.org/1999/02/22-rdf-syntax-ns#"><rdf:Description rdf:about="" xmlns:a="http://ns.example.com/a/">`)
+		for i := 0; i < 400000; i++ {
+			b.WriteString("<a:b>")
+		}
+		add("xmp-400000-nested-start-tags", "xmp", b.Bytes())
+		b.Reset()
+		b.WriteString(`<x:xmpmeta xmlns:x="adobe:ns:meta/"><rdf:RDF xmlns:rdf="http://www.w3.org/1999/02/22-rdf-syntax-ns#">`)
+		for i := 0; i < 100000; i++ {
+			b.WriteString(`<rdf:Description rdf:about="">`)
+		}
+		add("xmp-100000-nested-descriptions", "xmp", b.Bytes())
+	}
 	{ // PNG with thousands of empty ancillary chunks before the eXIf chunk
 		var before []gen.Chunk
 		for i := 0; i < 20000; i++ {
